@@ -94,6 +94,31 @@ def sig(v):
     return repr(v)
 
 
+def control_dependence(results, atoms):
+    """Does a branch taken on a quantity built from `atoms` change what is returned?  For every decision on such a quantity the
+    outcomes (returned values / raised errors) reachable after `true` are compared with those reachable after `false` from the
+    same decision prefix.  -> description of a decision that matters, or None"""
+    descs = {}
+    for p in results:
+        for e, op, d in p.constraints:
+            acc = set()
+            deep_atoms(e, acc)
+            if acc & atoms:
+                descs["%r %s 0" % (e, op)] = True
+    if not descs:
+        return None
+    groups = {}
+    for p in results:
+        out = (p.kind, sig(p.value) if p.kind == "return" else str(p.raise_desc))
+        for k, (d, taken) in enumerate(p.path):
+            if d in descs:
+                groups.setdefault((tuple(p.path[:k]), d), {True: set(), False: set()})[bool(taken)].add(out)
+    for (prefix, d), g in groups.items():
+        if g[True] and g[False] and g[True] != g[False]:
+            return d
+    return None
+
+
 class CacheRun:
     def __init__(self, P, analytic, precision, halo, mode, ctx="generic", levels_kind="array"):
         self.get_calls, self.put_calls = [], []
@@ -223,7 +248,11 @@ def solver_cache_obligations(P):
                                   detail=None if okr else ("the key holds %s, the result depends on %s%s" % ([str(alg.atom_expr(a))[:80] for a in foreign][:2], [str(alg.atom_expr(a))[:80] for a in rv_res][:2], " and on the unrounded value" if direct else "")),
                                   key={"param": pname, "analytic": analytic, "clause": "rounded"}))
             if pname == "srf_flx values":
-                obs.append(req_ob("R-KEY-COMPLETE", site, "the footprint result does not depend on the values of the surface-flux array (analytic=%s)" % analytic, not used, key={"param": pname}))
+                ctl = None
+                for r in runs:
+                    ctl = ctl or control_dependence(r.res, atoms)
+                obs.append(req_ob("R-KEY-COMPLETE", site, "the footprint result does not depend on the values of the surface-flux array, neither through a value nor through a branch (analytic=%s)" % analytic, not used and ctl is None,
+                                  detail=None if not used and ctl is None else ("a value of the array reaches the returned fields" if used else "the outcome of the test `%s` changes what is returned" % ctl[:120]), key={"param": pname}))
                 continue
             if used:
                 obs.append(req_ob("R-KEY-COMPLETE", site, "the result depends on %s, which is part of the key material (analytic=%s)" % (pname, analytic), keyed,
@@ -414,6 +443,7 @@ class EntryModel:
         self.getargs = [self.vals[p] for p in gparams]
         self.saved = {}
         self.save_paths, self.load_paths = [], []
+        self.strided = []  # buffers of possibly strided caller arrays handed to the hash
 
     # -- stubs
     def stubs(self, fault=None):
@@ -426,6 +456,9 @@ class EntryModel:
 
         def update(I, args, kwargs, node):
             I.cur_callee.bound.attrs["fed"].extend(args)
+            for a in args:
+                if isinstance(a, Opaque) and a.attrs.get("buffer") and not a.attrs.get("contiguous"):
+                    M.strided.append((getattr(node, "lineno", "?"), sig(a.attrs.get("of"))))
             return None
 
         def digest(I, args, kwargs, node):
@@ -552,6 +585,8 @@ def cache_entry_obligations(P):
         if "precision" in M.vals:
             okpr = any(_mentions(v, "double") for v in d.fed)
             obs.append(req_ob("R-KEY-COMPLETE", site, "precision reaches the hash (%s)" % who, okpr, key={"elem": "precision", "who": who}))
+    obs.append(req_ob("R-KEY-SAME", sr, "every array is hashed through a form that exists for any memory layout (tobytes or a contiguous copy; the raw buffer of a caller's strided view makes hashlib raise, so a request that the solver answers without a cache would fail with one)",
+                      not M.strided, detail=None if not M.strided else "raw buffers of the caller's arrays fed to the hash: %s" % M.strided[:3]))
     if M.put_missing:
         obs.append(req_ob("R-KEY-SAME", sp, "put takes the same key inputs as get", False, detail="put parameters without a counterpart in get: %s" % M.put_missing))
     # ---- unreadable entries: every failure of the read is a miss
